@@ -4,7 +4,7 @@ import json, os, re, subprocess, sys, glob
 V = os.path.dirname(os.path.dirname(os.path.abspath(__file__)))
 # which checks are expected to see each seed (first = the seeded property)
 extra = {"C03-1": ["C03", "C09"], "C14-1": ["C14", "C19"], "C09-1": ["C09", "C03"], "C02-3": ["C02", "C19"], "C03-3": ["C03", "C14"],
-         "C15-2": ["C15", "C18"], "C03-5": ["C03", "C08"], "C07-5": ["C07", "C14"]}
+         "C15-2": ["C15", "C18"], "C03-5": ["C03", "C08"], "C07-5": ["C07", "C14"], "C03-6": ["C03", "C01"], "C15-5": ["C15", "C18"], "C08-5": ["C08", "C03"]}
 # seeds that exposed a genuine defect of the pinned tree which has since been repaired in /repo: with the repair in
 # place the seeded change no longer breaks the property (its demonstration passes), so no check is expected to fire
 superseded = {"C18-2": "the seed stopped clearing the EVAL_CMD/DEADLINE globals of a finished call; a nested WHEREEVAL script on a pooled interpreter then "
